@@ -1,0 +1,14 @@
+//go:build verif
+
+// Contracts for package xrep (comment-only; read by /verif/govc).
+
+package xrep
+
+//@ struct pipe
+//@   immutable: p s closeQ sendQ
+//@
+//@ struct socket
+//@   lock Mutex level 20
+//@   guarded_by Mutex: closed sizeQ recvQ pipes recvExpire sendExpire sendQLen recvQLen bestEffort ttl
+//@   immutable: closeQ
+//@
